@@ -96,7 +96,17 @@ type GlobalInv struct {
 	Clause Clause
 }
 
+// Macro: a named specification expression expanded at its use site (so that it reads the
+// state and the program variables of the place where it is used).
+type Macro struct {
+	Name   string
+	Params []string
+	Body   SExpr
+	Src    string
+}
+
 type Specs struct {
+	Macros     map[string]*Macro
 	GlobalInvs []GlobalInv
 	Contracts map[string]*Contract
 	Ghosts    []*GhostVar
@@ -110,13 +120,13 @@ var clauseKeywords = map[string]bool{
 	"func": true, "ghost": true, "spec": true, "axiom": true, "arith": true, "requires": true, "ensures": true,
 	"assigns": true, "loop": true, "callsite": true, "trusted": true, "assumed": true, "inline": true, "pure": true,
 	"noreturn": true, "model": true, "safety": true, "case": true, "props": true, "assert": true, "verified-external": true,
-	"params": true, "endcase": true, "global": true, "abstracts": true, "lemma": true, "assume": true, "overflow": true,
+	"params": true, "endcase": true, "global": true, "abstracts": true, "lemma": true, "assume": true, "overflow": true, "macro": true,
 }
 
 // LoadSpecs reads every contract source: //@ lines of zz_contracts_verif.go files
 // in the repository and *.contracts files in the spec directory.
 func LoadSpecs(repo string, specDir string) (*Specs, error) {
-	sp := &Specs{Contracts: map[string]*Contract{}, Fns: map[string]*SpecFn{}}
+	sp := &Specs{Contracts: map[string]*Contract{}, Fns: map[string]*SpecFn{}, Macros: map[string]*Macro{}}
 	var files []string
 	filepath.Walk(repo, func(p string, info os.FileInfo, err error) error {
 		if err != nil {
@@ -290,6 +300,26 @@ func (sp *Specs) loadFile(path string, goFile bool) error {
 				return fail(fmt.Errorf("global needs pkg.name"))
 			}
 			sp.GlobalInvs = append(sp.GlobalInvs, GlobalInv{Pkg: head[0][:j], Name: head[0][j+1:], Clause: cl})
+		case "macro":
+			// macro name(p1, p2) = expr
+			i := strings.Index(rest, "=")
+			j := strings.Index(rest, "(")
+			k := strings.Index(rest, ")")
+			if i < 0 || j < 0 || k < j || i < k {
+				return fail(fmt.Errorf("macro name(params) = expr"))
+			}
+			m := &Macro{Name: strings.TrimSpace(rest[:j]), Src: src}
+			for _, p := range strings.Split(rest[j+1:k], ",") {
+				if p = strings.TrimSpace(p); p != "" {
+					m.Params = append(m.Params, p)
+				}
+			}
+			e, err := ParseSpec(rest[i+1:])
+			if err != nil {
+				return fail(err)
+			}
+			m.Body = e
+			sp.Macros[m.Name] = m
 		case "lemma":
 			// lemma <name> [arith int|bv] [props Cxx ...]: <expr>
 			i := strings.Index(rest, ":")
